@@ -23,6 +23,7 @@ TITLES = ["T", "Title 7", "A title of exactly forty characters long."[:40], "デ
 def alphabet():
     return [("text", "single line"), ("text", MULTI), ("text", INDENTED), ("field", "fname", "fval"),
             ("bul", "i1", "i2"), ("enum",) + tuple(f"e{n}" for n in range(1, 11)),
+            ("enum", "run the tests", "install", "run the tests", "run the tests"),      # items may repeat
             ("dir", "note"), ("dir", "function", "f(a b)"),
             ("opt", "maxdepth", "2"),
             ("sec", "Sub"), ("up",), ("title", "New"), ("title", "A considerably longer title"), ("title_same",),
@@ -262,7 +263,9 @@ def run(ctx):
     configs = [(titles[0], None, depth), (titles[1], ("=", "-", "~", "^", "+"), depth - 1),
                (titles[2], None, depth - 2), (titles[3], ("=", "-", "~", "^", "+"), depth - 2),
                # a header list in which characters repeat (levels are positions, not characters)
-               (titles[0], ("=", "=", "-", "=", "~"), depth - 2)]
+               (titles[0], ("=", "=", "-", "=", "~"), depth - 2),
+               # header characters that mean something to str.format / %-formatting / regular expressions
+               (titles[1], ("{", "}", "%", "\\", "$"), depth - 2), (titles[2], ("}", "{", "*", "^", "."), depth - 3)]
     ctx.cov["bounds"] = {"max_operations": depth, "max_nesting": maxnest,
                          "alphabet": [list(o) for o in alphabet()],
                          "configs": [{"title": t, "headers": h, "depth": d} for t, h, d in configs]}
@@ -306,7 +309,8 @@ def run(ctx):
     deep = []
     for d in range(1, 13):
         ops = [("dir", "note")] * d + [("opt", "maxdepth", "2"), ("text", MULTI), ("text", INDENTED), ("field", "fname", "fval"),
-                                       ("bul", "i1", "i2"), ("enum",) + tuple(f"e{n}" for n in range(1, 11)), ("ser",)]
+                                       ("bul", "i1", "i2"), ("enum",) + tuple(f"e{n}" for n in range(1, 11)),
+                                       ("enum", "run the tests", "install", "run the tests", "run the tests"), ("ser",)]
         ops += [("up",), ("text", "single line")] * (d - 1)
         deep.append(ops)
     for ops in deep:
